@@ -249,9 +249,15 @@ func stubJSONUnmarshal(data []byte, v any) error {
 		*p = theExt
 		return nil
 	}
+	if p, ok := v.(*jwsEnvelope); ok && parseEnvelopeHook != nil {
+		return parseEnvelopeHook(data, p)
+	}
 	rt.Fail("unexpected json.Unmarshal target")
 	return nil
 }
+
+// set by the C09 parse harness: json.Unmarshal of arbitrary bytes into a jwsEnvelope
+var parseEnvelopeHook func(data []byte, p *jwsEnvelope) error
 
 // (*json.Decoder).Decode into jwt.MapClaims: the payload is some JSON document; an object (or null) decodes, anything else fails
 var claimsDecodeErr, claimsDecoded bool
